@@ -34,15 +34,57 @@ def run(rep, tier):
     rep.rule("R2", "guards: raise, placed after the definition they guard, NaN-safe form")
     rep.rule("R3", "CLI entry points reject unknown options before generation")
     rep.rule("R4", "shipped option files agree with the option schema of their entry point")
+    rep.rule("R5", "a numeric option for which 0 is a valid value is compared with None, never tested for truthiness (0 must not act as 'unset')")
     rep.rule("R6", "written fields have computed data at every written location")
     r1(prog, rep)
     r2(prog, rep)
     sch = Schemas(prog)
     r3(prog, rep, sch)
     r4(prog, rep, sch)
+    r5(prog, rep, sch)
     r6(prog, rep)
     rep.undecided("finiteness and positivity of written values; success of the numerics on the shipped examples")
     return __doc__
+
+
+def r5(prog, rep, sch):
+    types, nonzero = {}, {}
+    for fac in sch.factories.values():
+        for k, o in fac.items():
+            types.setdefault(k, set()).update(o.value_types() or [])
+            nonzero.setdefault(k, []).append("is_positive" in o.checks())
+    numeric = {k for k, t in types.items() if ({"float", "int"} & t) and "bool" not in t and not all(nonzero[k])}
+    rep.analysed_add("numeric options admitting 0", sorted(numeric))
+    bad = []
+    n_sites = 0
+    for m in prog.modules.values():
+        for n in ast.walk(m.tree):
+            roots = []
+            if isinstance(n, (ast.If, ast.While, ast.IfExp, ast.Assert)):
+                roots.append(n.test)
+            elif isinstance(n, ast.BoolOp) and isinstance(n.op, ast.Or):
+                roots.extend(n.values[:-1])  # `opt or default`
+            for t in roots:
+                stack = [t]
+                while stack:
+                    x = stack.pop()
+                    if isinstance(x, ast.BoolOp):
+                        stack.extend(x.values)
+                    elif isinstance(x, ast.UnaryOp) and isinstance(x.op, ast.Not):
+                        stack.append(x.operand)
+                    elif isinstance(x, ast.Attribute) and isinstance(x.value, ast.Attribute) and x.value.attr.endswith("options"):
+                        n_sites += 1
+                        if x.attr in numeric:
+                            bad.append((m, x, t))
+    seen = set()
+    for m, x, t in bad:
+        key = "%s/%s" % (m.rel, x.attr)
+        if key in seen:
+            continue
+        seen.add(key)
+        rep.ob("R5", "option %s is not tested for truthiness" % x.attr, False, "%s:%d" % (m.rel, x.lineno), "test `%s`: a value of 0 would be treated as unset" % m.code(t)[:100], key="truthiness/" + key)
+    rep.ob("R5", "no numeric option that admits 0 is tested for truthiness (%d option truth tests examined, %d numeric options)" % (n_sites, len(numeric)), not bad, "", "", key="truthiness/all")
+    rep.floor("R5.numeric-options", len(numeric), 40)
 
 
 # ---------------------------------------------------------------------------------
